@@ -132,7 +132,7 @@ impl Prop for C03 {
                     gen: enum_small,
                 },
             },
-            Stage { name: "random", kind: StageKind::Random { strategy: strat, cases: tier.pick(200_000, 2_000_000) } },
+            Stage { name: "random", kind: StageKind::Random { strategy: strat, cases: tier.pick(400_000, 2_000_000) } },
         ]
     }
     fn check(case: &SeqCase, obs: &mut Obs) -> Verdict {
